@@ -1,14 +1,15 @@
 SPECIFICATION MCSpec
 CONSTANTS
-  Proc = {"s1", "s2"}
-  CloneSeq <- Clones0
+  Proc = {"s1", "s2", "s3", "s4"}
+  CloneSeq <- Clones3
   Defect_CheckThenClone = FALSE
   Defect_UnlockedJoin = FALSE
-  Defect_SplitDrop = TRUE
+  Defect_SplitDrop = FALSE
 INVARIANTS
   TypeOK
   C29_ReturnedHandleIsBacked
   C29_LeftAtZero
+  X_HandleUsesCurrentSession
   X_CounterCountsHandles
 PROPERTIES
   C29_LeftOnlyAtZero
